@@ -238,4 +238,17 @@ PROPERTIES = {
             part("C05.faultfree", shards={"quick": 16, "thorough": 16}, floor=20),
         ],
     },
+    "C08": {
+        "level": "exploration",
+        "level_text": "in-package model check of the timeout collector (exhaustive small sequences, random longer ones) and a synchronizer monitor on one real replica fed hostile timeout "
+                      "interleavings by puppets whose keys the harness holds; emitted certificates are verified at another replica's real authority and by the ground-truth oracle",
+        "level_note": "timeouts in these runs carry only the genesis QC so that every view change is timeout-driven; a message counts only if it is correctly signed by its sender",
+        "technique": "reference-model monitor (per-view sender sets) + ground-truth certificate oracle on a single real replica under hostile input",
+        "exhaustive": True,
+        "rule": "C08: timeout certificates",
+        "parts": [
+            part("C08.collector", target=("test", "protocol/synchronizer"), shards={"quick": 16, "thorough": 16}, floor=1000),
+            part("C08.sync", shards={"quick": 16, "thorough": 16}, floor=200),
+        ],
+    },
 }
